@@ -1018,6 +1018,26 @@ def handle (line : String) : String :=
     else if cmd = "gc.run" then handleGcRun args
     else if cmd = "gcrace.trace" then handleRace args
     else if cmd = "rd.get" then handleRd args
+    else if cmd = "cf.exit" then
+      (match args with
+       | [e, a] =>
+           let be : Option DSV.CommitFault.BodyEnd := match e with | "normal" => some .normal | "exception" => some .exception | "interrupt" => some .interrupt | _ => none
+           (match be with
+            | some b => (match DSV.CommitFault.exitAction b (a = "1") with | .commit => "commit" | .rollback => "rollback" | .nothing => "nothing")
+            | none => "bad-op")
+       | _ => "bad-op")
+    else if cmd = "cf.reuse" then
+      -- cf.reuse <first end> <second end>: files 1 (first attempt) and 2 (second attempt); which are deleted by the second attempt
+      (match args with
+       | [e1, e2] =>
+           let pe (x : String) : Option DSV.CommitFault.AttemptEnd := match x with | "committed" => some .committed | "ambiguous" => some .ambiguous | "cleanFailure" => some .cleanFailure | _ => none
+           (match pe e1, pe e2 with
+            | some a, some b =>
+                let r1 := DSV.CommitFault.attempt true ⟨[]⟩ [1] a
+                let r2 := DSV.CommitFault.attempt true r1.1 [2] b
+                "deleted=" ++ joinWith "," ((r1.2 ++ r2.2).map toString)
+            | _, _ => "bad-op")
+       | _ => "bad-op")
     else if cmd = "cf.outcome" then handleCf args
     else if cmd = "fs.judge" then handleFsJudge args
     else if cmd.startsWith "path." then handlePath cmd args
